@@ -11,3 +11,29 @@ PROPS = {
   "assumptions": ["allocations inside libcrypto/libc are real and never fail", "each case runs in a forked child under ASan+UBSan; a crash is attributed through the child's stderr"],
  },
 }
+
+PROPS["C17"] = {
+  "engine": "sim_persist", "variant": "asan", "level": "fault_enumeration",
+  "parts": [{"args": ["--mode", "c17"]}],
+  "budget_quick": 90, "budget_thorough": 1500,
+  "exhaustive_thorough": False,
+  "rule": "one case = (compiled rule file F produced by the library from a generated rule set, fault): the writer crashes after n bytes (a prefix of F is loaded) for every n when |F| <= 6000 (quick) / 16384 (thorough) and for every header/table byte, every section boundary +-8, every relocation-entry boundary and a seeded interior sample otherwise; or one header / buffer-table / relocation-entry field is corrupted (magic, version, num_buffers, each offset and size at 0, +-1, +-8, +16, next size, 2^31-1, 2^32-1); or yr_rules_save(path) runs onto a simulated disk that fills at byte n and yr_rules_load(path) follows. Oracle: load fails and leaves *rules untouched, or (corruptions only) the loaded rules scan a buffer corpus identically. Non-trivial = every case injects a fault; distinct = distinct (rule file, cut point | field,value).",
+  "components": {"real": REAL_LIB, "stub": ["YR_STREAM backing store (simulated disk with durable length)", "fwrite/fclose under yr_rules_save (disk-full)", "allocator policy"]},
+  "assumptions": ["writes are sequential, so prefixes are the crash states of the writer", "corruption cases run load+scan in a forked child; an abort or sanitizer report there is an outcome, not a harness failure"],
+}
+PROPS["C08"] = {
+  "engine": "sim_persist", "variant": "asan", "level": "exploration",
+  "parts": [{"args": ["--mode", "c08"]}],
+  "budget_quick": 90, "budget_thorough": 1500,
+  "rule": "one run = a generated rule set (RuleLab fragments over 1-3 namespaces, externals of all four types, global/private flags, rule references) taken through a seeded history: compile under heap layout/junk A, scan, save, scan original again, save again, load through a stream whose disk delivers at most c bytes per read, destroy the original, scan the copy; recompile under layout/junk B and compare images; stream write error at item n followed by scans and a re-save of the original; rules-level defines followed by save+load. Non-trivial = all runs (each perturbs heap layout and chunking or injects a write fault); distinct = distinct (rule set, chunk, junk, fault position).",
+  "components": {"real": REAL_LIB, "stub": ["YR_STREAM read/write callbacks (chunked simulated disk, write errors)", "allocator addresses, padding and junk fill"]},
+  "assumptions": ["images are compared within one process under perturbed heap layouts and junk rather than across processes with different ASLR", "saving a rule set obtained from yr_rules_load* is out of scope (docs/capi.rst says such rules cannot be saved)"],
+}
+PROPS["C19"] = {
+  "engine": "sim_persist", "variant": "asan", "level": "exploration",
+  "parts": [{"args": ["--mode", "c19"]}],
+  "budget_quick": 90, "budget_thorough": 1500,
+  "rule": "one run = (generated rule set, initial capacity of every compiler arena buffer drawn from {1,2,3,7,8,16,24,64,100,512,4096,65536} or a seeded arbitrary value, realloc forced to always move with the old block poisoned, optional splitting of each source into two add_string calls); oracle: no sanitizer report, scan traces and saved image byte-identical to the default-capacity compilation. Non-trivial = at least one block was relocated; distinct = distinct (rule set, capacity, split).",
+  "components": {"real": REAL_LIB, "stub": ["yr_arena_create initial size as seen by compiler.c (link-time seam)", "realloc policy (always moves, junk-fills, old block freed/poisoned)"]},
+  "assumptions": ["growth positions are sampled through the capacity choice; with capacity 1 every allocation relocates"],
+}
